@@ -79,7 +79,37 @@ def _oracle(args):
     used = R - missing
     stubs = [p_ for p_ in xml.iter(ns + 'p') if (p_.text or '').startswith('FOOTNOTE ') and len(p_) == 0]
     if len(stubs) < B - used: return ('bad', '%d blocks, %d used, but only %d kept as ordinary content' % (B, used, len(stubs)), R, B)
-    if used > B: return ('bad', 'more notes have content than there are blocks', R, B)
+    # a reference only gets the placeholder when no unused block with its marker is left anywhere in the document (the search widens
+    # up to the root); the one exception is a reference inside a block of its own marker, which cannot take that block
+    # ... directly, or once other notes have been moved: block a holds a reference b whose block holds a reference a
+    edges, Bm, Rm = {}, {}, {}
+    def walk(n, inside):
+        at = n.get('attribs') or {}
+        if n.get('name') == 'displaced':
+            Bm[at.get('marker')] = Bm.get(at.get('marker'), 0) + 1; inside = inside | {at.get('marker')}
+        elif at.get('displaced') == 'footnote':
+            Rm[at.get('marker')] = Rm.get(at.get('marker'), 0) + 1
+            for b in inside: edges.setdefault(b, set()).add(at.get('marker'))
+        for key in ('heading', 'subheading', 'from', 'children'):
+            for k in n.get(key, []) or []:
+                if isinstance(k, dict): walk(k, inside)
+    walk(d, frozenset())
+    def on_cycle(m):
+        seen, todo = set(), list(edges.get(m, ()))
+        while todo:
+            x = todo.pop()
+            if x == m: return True
+            if x not in seen: seen.add(x); todo += list(edges.get(x, ()))
+        return False
+    Pm = {}
+    for n in notes:
+        if len(n) == 1 and n[0].tag == ns + 'p' and n[0].text == '(content missing)' and len(n[0]) == 0:
+            Pm[n.get('marker')] = Pm.get(n.get('marker'), 0) + 1
+    for m, pm in Pm.items():
+        # every reference that did not get the placeholder used one block: what is left of the blocks with this marker
+        left_m = Bm.get(m, 0) - (Rm.get(m, 0) - pm)
+        if left_m > 0 and not on_cycle(m):
+            return ('bad', 'a reference with marker %r got the placeholder although %d unused FOOTNOTE %s block(s) are left in the document' % (m, left_m, m), R, B)
     return ('ok', None, R, B)
 
 # ---- pairing stream: every marker has exactly one reference and one block in the same provision, in either order ----
